@@ -187,7 +187,7 @@ def _gen_section(ctx, arch, spec, little):
     out = [0x41]
     want = []
     for i, sub in enumerate(spec):
-        vendor = [ord(c) for c in sub['vendor']] + [0]
+        vendor = list(sub['vendor'].encode('utf-8')) + [0]       # vendor names are UTF-8 text
         body = []
         subs = []
         for j, ss in enumerate(sub['subsubs']):
@@ -360,6 +360,7 @@ def _attr_instances(tier):
                 # the number and order of vendor subsections is unconstrained: a vendor may occur more than once, scopes may repeat
                 'repeated-vendor': [dict(vendor='aeabi', subsubs=[ss(1, [u])]), dict(vendor='gnu', subsubs=[ss(1, [s])]), dict(vendor='aeabi', subsubs=[ss(1, [s]), ss(1, [u])])],
                 'repeated-scope': [dict(vendor='aeabi', subsubs=[ss(2, [u], [1]), ss(1, [s]), ss(2, [s], [2]), ss(1, [u])])],
+                'non-ascii-vendor': [dict(vendor='Z\u00fcrich\u2122', subsubs=[ss(1, [u]), ss(2, [s], [1])]), dict(vendor='aeabi', subsubs=[ss(1, [s])])],
                 '2x2': [dict(vendor='a', subsubs=[ss(1, [u]), ss(2, [s], [1])]), dict(vendor='bb', subsubs=[ss(2, [u], []), ss(1, [])])],
             }
             for label, spec in shapes.items():
